@@ -36,4 +36,5 @@ def run(repo, res, tier):
                 res.add(Finding("TB3", f"grammar.{c}", f"comments {tuple(pr)!r}",
                                 f"{c}.comments contains {tuple(pr)!r}: {why}"))
     lexrules.rule_preserve(repo, res)
+    lexrules.rule_preserve_first(repo, res)
     common.token_wsc_rule(repo, res)
